@@ -113,6 +113,29 @@ def run(res, ctx):
         orig.append(c)
         relaid.append({"rows": new_rows, "inits": c["inits"], "files": files})
         descs.append(desc)
+    # crafted: the file lists the rows in TRADE-date order, which is not their settlement order (a sale settling
+    # T+2/T+3 listed before a same-day-settling purchase traded a day later, and the other way round); the
+    # re-laid-out version lists them in settlement order
+    for _ in range(30 if tier == "quick" else 300):
+        d0 = core.BASE_DAY + rng.randint(10, 600)
+        def _r(td, sd, act, sh, aps):
+            return {"sec": "FOO", "td": d0 + td, "sd": d0 + sd, "act": act, "sh": core.D(sh), "aps": core.D(aps),
+                    "com": None, "cur": None, "rate": None, "af": None}
+        n0 = rng.choice([5, 10, 20])
+        first = _r(0, 0, "Buy", n0, rng.choice([10, 20]))
+        if rng.random() < 0.5:
+            a = _r(40, 40 + rng.choice([2, 3]), "Sell", n0, rng.choice([5, 30]))      # sells everything, settles late
+            b = _r(41, 41, "Buy", rng.choice([1, 5]), rng.choice([7, 25]))              # traded later, settles first
+        else:
+            a = _r(40, 43, "Buy", rng.choice([1, 5]), rng.choice([7, 25]))
+            b = _r(41, 41, "Sell", rng.choice([1, n0]), rng.choice([5, 30]))
+        tail = [_r(90, 92, "Sell", 1, 12)] if rng.random() < 0.5 else []
+        rows = [first, a, b] + tail
+        c = {"rows": rows, "inits": {}}
+        new_rows = [first, b, a] + tail
+        orig.append(c)
+        relaid.append({"rows": new_rows, "inits": {}, "files": [core.to_csv(new_rows)]})
+        descs.append("rows permuted")
     ra = corecheck.run_cases(ctx, orig)
     rb = corecheck.run_cases(ctx, relaid)
     for x, y, desc in zip(ra, rb, descs):
